@@ -103,6 +103,11 @@ func (s *sim) openMode(lazy bool) error {
 	if err != nil {
 		return err
 	}
+	return s.adopt(fq, lazy)
+}
+
+// adopt takes over a freshly opened queue.
+func (s *sim) adopt(fq queue.FanOutQueue, lazy bool) error {
 	s.fq = fq
 	s.gs = map[int]queue.ConsumerGroup{}
 	s.paused = map[int]bool{}
@@ -436,9 +441,6 @@ func (s *sim) oracle(kind string, g int, n int64, res string, b, a snapshot, met
 			}
 		}
 	}
-	if s.reset {
-		return
-	}
 	// (1) and the second half of (5): flagged at the operation that breaks them. "Before" is the
 	// group's live position, or — for a group that was not live (stopped, now re-created or
 	// resurrected by reopen) — the content of its meta page.
@@ -449,14 +451,16 @@ func (s *sim) oracle(kind string, g int, n int64, res string, b, a snapshot, met
 			old = m
 		}
 		known := was || hadMeta
-		if !ordered(p, a.app) && (!known || ordered(old, b.app)) {
+		if !s.reset && !ordered(p, a.app) && (!known || ordered(old, b.app)) {
 			if (kind == "create" || kind == "reopen") && hadMeta && p.a > p.c && p.c == m.c && m.a < a.ack && p.a == a.ack {
 				s.fail(keyRestoreOrder, "%s restored group %d from meta %v with queue ack %d as %v: ack > consumed", kind, id, m, a.ack, p)
 			} else {
 				s.fail("order-broken-by-"+kind, "group %d: %v -> %v, appended %d", id, old, p, a.app)
 			}
 		}
-		if p.a < a.ack && (!was || old.a >= b.ack) {
+		// queue ack <= group ack is judged after explicit resets too: an index reset puts queue and
+		// groups to the same position; only SetSeq on the group itself may put it below
+		if p.a < a.ack && (!was || old.a >= b.ack) && !(kind == "setseq" && id == g) {
 			if kind == "create" && !hadMeta && p == (gpos{-1, -1}) {
 				s.fail(keyFreshBelow, "new group %d starts at %v while the queue ack is %d: its next Consume returns %d, which Get refuses", id, p, a.ack, p.c+1)
 			} else {
@@ -743,6 +747,21 @@ func (s *sim) doCBegin(g int) bool {
 			seen = true
 			break
 		}
+		select {
+		case v := <-pk.ch:
+			// the group is not paused and its head is above the appended position: Consume can only
+			// wait. It returned instead.
+			app := s.fq.Queue().AppendedSeq()
+			s.c.Op(fmt.Sprintf("cbegin %d", g), fmt.Sprintf("returned %d | %s", v, s.snap()))
+			if v > app {
+				s.fail("consume-beyond-appended", "Consume of group %d returned %d while the appended position is %d (consumed was %d): the sequence is not appended, Get refuses it", g, v, app, pk.head-1)
+			} else {
+				s.fail("drained-consume-returned", "Consume of the drained, un-paused group %d returned %d instead of waiting (appended %d)", g, v, app)
+			}
+			s.dead = true
+			return false
+		default:
+		}
 		time.Sleep(100 * time.Microsecond)
 	}
 	if !seen {
@@ -883,6 +902,10 @@ func (s *sim) caseParkedFixed(rng *rand.Rand) {
 	s.parkRound(rng, 0, []func(){func() { s.doSetAppended(s.fq.Queue().AppendedSeq() - 3) }})
 	// nothing in between
 	s.parkRound(rng, 0, nil)
+	// an index reset backwards BEFORE the call: it must wait for the next append, not trust what
+	// the group saw of the queue before the reset (seeded change c06-14)
+	s.doSetAppended(s.fq.Queue().AppendedSeq() - 2)
+	s.parkRound(rng, 0, nil)
 	// SetSeq below, then the other group
 	s.parkRound(rng, 0, []func(){func() { s.doSetSeq(0, s.gs[0].AcknowledgedSeq()) }, func() { s.doConsume(1) }})
 	s.doSync()
@@ -934,6 +957,9 @@ func (s *sim) caseParkedRandom(rng *rand.Rand) {
 		}
 		if rng.Intn(3) == 0 {
 			s.doSync()
+		}
+		if rng.Intn(4) == 0 { // index reset before the call parks
+			s.doSetAppended(s.fq.Queue().AppendedSeq() - int64(rng.Intn(4)))
 		}
 		var mids []func()
 		for k := rng.Intn(4); k > 0; k-- {
@@ -1285,6 +1311,62 @@ func (s *sim) doReopenLazy(rng *rand.Rand) {
 	s.readable("reopen", rng)
 }
 
+// doReopenFault: Close; NewFanOutQueue with a one-shot failure to open group g's meta directory
+// (the start-up must fail); retry. Judged like a reopen: nothing may have moved, no group missing.
+func (s *sim) doReopenFault(g int, rng *rand.Rand) {
+	if _, has := s.meta[g]; !has || s.park != nil || s.dead {
+		return
+	}
+	s.op("reopen", g, 0, fmt.Sprintf("reopenfault %d", g), func() string {
+		s.close()
+		armFault(fmt.Sprintf("/cg/%d/", g))
+		fq, err := queue.NewFanOutQueue(s.dir, 1024)
+		fired := disarmFault()
+		if err == nil {
+			if aerr := s.adopt(fq, false); aerr != nil {
+				panic(aerr)
+			}
+			if fired {
+				return "started-without-group"
+			}
+			return "ok-no-fault"
+		}
+		if err := s.open(); err != nil {
+			panic(err)
+		}
+		return "retried"
+	})
+	s.c.Branch("reopen-fault")
+	s.readable("reopen", rng)
+}
+
+// caseFaultFixed: the schedule of seeded change c06-15.
+func (s *sim) caseFaultFixed(rng *rand.Rand) {
+	s.doCreate(0)
+	s.doCreate(1)
+	for i := 0; i < 12; i++ {
+		s.doAppend(i + 1)
+	}
+	for i := 0; i < 11; i++ {
+		s.doConsume(0)
+	}
+	s.doAck(0, 10)
+	for i := 0; i < 4; i++ {
+		s.doConsume(1)
+	}
+	s.doAck(1, 2)
+	s.doSync()
+	s.doReopenFault(1, rng) // the group with the smallest ack cannot be opened at start-up
+	s.doSync()
+	s.doGC(rng)
+	s.get(3)
+	s.doCreate(1)
+	s.doConsume(1)
+	s.doReopenFault(0, rng)
+	s.doSync()
+	s.pages()
+}
+
 // lookupAll looks up every group that is still dormant (ascending).
 func (s *sim) lookupAll() {
 	ids := make([]int, 0, len(s.dormant))
@@ -1396,6 +1478,8 @@ func (a area) Run(c *core.Ctx) error {
 				s.caseRaceFixed(rng)
 			case "lazy-fixed":
 				s.caseLazyFixed(rng)
+			case "fault-fixed":
+				s.caseFaultFixed(rng)
 			case "race":
 				s.caseRaceRandom(rng)
 			default:
@@ -1436,6 +1520,8 @@ func caseKind(i int, tier string, rng *rand.Rand) string {
 		return "index-pages-many"
 	case 9:
 		return "reset-persist"
+	case 10:
+		return "fault-fixed"
 	}
 	if tier == "thorough" && i%40 == 7 {
 		return "pages"
@@ -1803,9 +1889,12 @@ func (s *sim) caseRandom(rng *rand.Rand, kind string) {
 				s.get(int64(rng.Intn(40)) - 2)
 			}
 		default:
-			if rng.Intn(5) < 2 {
+			switch x := rng.Intn(6); {
+			case x < 2:
 				s.doReopenLazy(rng)
-			} else {
+			case x == 2:
+				s.doReopenFault(rng.Intn(ng), rng)
+			default:
 				s.doReopen(rng)
 			}
 		}
